@@ -87,6 +87,7 @@ type Conn struct {
 	closed     atomic.Bool
 	dead       atomic.Bool // killed by a fault plan: local writes fail
 	closeCount atomic.Int32
+	closedAt   atomic.Int64 // UnixNano of the first Close
 	ID         int64
 
 	// WriteChunks records the size of every Write call (segmentation seen by this end).
@@ -296,6 +297,7 @@ func (c *Conn) Close() error {
 	if c.closed.Swap(true) {
 		return net.ErrClosed
 	}
+	c.closedAt.Store(time.Now().UnixNano())
 	c.out.mu.Lock()
 	c.out.wclosed = true
 	c.out.broadcastLocked()
@@ -323,6 +325,14 @@ func (c *Conn) Reset() {
 		}
 		h.mu.Unlock()
 	}
+}
+
+// ClosedAt is the instant of the first Close on this end (zero if never closed).
+func (c *Conn) ClosedAt() time.Time {
+	if ns := c.closedAt.Load(); ns != 0 {
+		return time.Unix(0, ns)
+	}
+	return time.Time{}
 }
 
 // Closed reports whether Close was called on this end; CloseCalls how many times.
